@@ -278,6 +278,12 @@ func (c *VirtualTable) BestIndex(input []IndexInput, order []OrderInput) (*Index
 	}
 	out.AlreadyOrdered = true
 	var desc *bool
+	// only a single ORDER BY term can be satisfied by the key scan;
+	// otherwise scan in key order and let SQLite sort
+	multipleTerms := len(order) > 1
+	if multipleTerms {
+		order = nil
+	}
 	for i := range order {
 		if order[i].Column != c.KeyCol {
 			out.AlreadyOrdered = false
@@ -291,6 +297,9 @@ func (c *VirtualTable) BestIndex(input []IndexInput, order []OrderInput) (*Index
 	if desc == nil {
 		a := false
 		desc = &a
+	}
+	if multipleTerms {
+		out.AlreadyOrdered = false
 	}
 	if *desc {
 		out.IdxStr = "desc " + out.IdxStr
